@@ -86,6 +86,8 @@ def configs(tier, seed):
             out.append({'name': impl + '-leak', 'impl': impl, 'mode': 'hyp',
                         'kind': 'leak', 'n': 300, 'reps': 40,
                         'journal': True})
+            out.append({'name': impl + '-sched', 'impl': impl, 'mode': 'hyp',
+                        'kind': 'sched', 'n': 1200, 'journal': True})
             out.append({'name': impl + '-stress', 'impl': impl, 'mode': 'hyp',
                         'kind': 'stress', 'n': 6, 'dur': 2.0,
                         'journal': True, 'shrink_calls': 3})
@@ -101,6 +103,10 @@ def configs(tier, seed):
                         'journal': True})
         out.append({'name': impl + '-leak', 'impl': impl, 'mode': 'hyp',
                     'kind': 'leak', 'n': 1500, 'reps': 60, 'journal': True})
+        for shard in range(2):
+            out.append({'name': '%s-sched-%d' % (impl, shard), 'impl': impl,
+                        'mode': 'hyp', 'kind': 'sched', 'n': 6000,
+                        'shard': shard, 'journal': True})
         for shard in range(2):
             out.append({'name': '%s-stress-%d' % (impl, shard), 'impl': impl,
                         'mode': 'hyp', 'kind': 'stress', 'n': 12, 'dur': 5.0,
@@ -183,10 +189,12 @@ def mutation_op(draw, allow_spec=True, allow_rebuild=True):
 
 
 @st.composite
-def key_strategy(draw, min_arity=0):
+def key_strategy(draw, min_arity=0, bp=None):
     arity = max(min_arity, draw(st.sampled_from([0, 1, 1, 1, 1, 2, 2])))
     refs = [draw(objref()) for _ in range(arity)]
     p = draw(IDX)
+    if bp is not None and bp.get('pfan') and draw(st.integers(0, 9)) < 7:
+        p = 0               # the interface every other provided one extends
     return [draw(IDX), refs, p, draw(st.sampled_from(NAMES + ['', '']))]
 
 
@@ -198,6 +206,15 @@ def base_case(draw, max_regs=3, force_chain=False):
         bp['classes'] = [{'bases': [], 'implements': [0], 'only': False}]
     if not bp['insts']:
         bp['insts'] = [{'cls': 0, 'direct': []}]
+    # provided side: half of the time a fan (several unrelated interfaces
+    # extending one base), so that lookups for the base walk a list of
+    # several extendors which registrations and unregistrations reshape
+    if draw(st.booleans()):
+        nP = max(3, len(bp['pbases']))
+        bp['pbases'] = [[]] + [
+            [0] if draw(st.integers(0, 3)) else [i - 1]
+            for i in range(1, nP)]
+        bp['pfan'] = True
     contents = [draw(content_op())
                 for _ in range(draw(st.integers(1, 10)))]
     return bp, contents
@@ -208,7 +225,8 @@ def inject_case(draw):
     bp, contents = draw(base_case())
     entry, point = draw(st.sampled_from(CELLS))
     key = draw(key_strategy(1 if entry in ('lookup1', 'queryAdapter',
-                                            'adapter_hook', 'call') else 0))
+                                            'adapter_hook', 'call') else 0,
+                            bp))
     if point == 'generation':
         # needs a verifying registry with at least one base
         while len(bp['regs']) < 2:
@@ -250,7 +268,7 @@ def preempt_case(draw):
     contents += [[draw(st.sampled_from(['regfor', 'subfor'])), draw(IDX),
                   draw(IDX)] for _ in range(draw(st.integers(1, 3)))]
     entry = draw(st.sampled_from(ENTRY[:9]))
-    key = draw(key_strategy(1))
+    key = draw(key_strategy(1, bp))
     direction = draw(st.sampled_from(['LM', 'LM', 'ML', 'ML', 'LL']))
     # rebuild() interrupts lookups but is not itself claimed to look atomic
     # to a concurrent reader (it replaces every internal structure)
@@ -267,6 +285,36 @@ def preempt_case(draw):
             'koff': draw(st.integers(0, 1000))}
 
 
+@st.composite
+def sched_case(draw):
+    bp, contents = draw(base_case())
+    contents += [[draw(st.sampled_from(['regfor', 'subfor'])), draw(IDX),
+                  draw(IDX)] for _ in range(draw(st.integers(0, 2)))]
+    key = draw(key_strategy(1, bp))
+    nlook = draw(st.sampled_from([1, 2, 2]))
+    lookers = []
+    for _ in range(nlook):
+        lookers.append([[draw(st.sampled_from(ENTRY[:9])),
+                         draw(st.integers(0, 3)) == 0,
+                         draw(key_strategy())]
+                        for _ in range(draw(st.integers(1, 3)))])
+    muts = [draw(mutation_op(allow_spec=False, allow_rebuild=False))
+            for _ in range(draw(st.integers(1, 3)))]
+    nth = nlook + 1
+    schedules = []
+    for _ in range(draw(st.integers(1, 6))):
+        schedules.append([[draw(st.integers(0, nth - 1)),
+                           draw(st.sampled_from([1, 2, 3, 5, 8, 13, 21, 34,
+                                                 55, 89, 144]))]
+                          for _ in range(draw(st.integers(1, 12)))])
+    warm = draw(st.lists(st.tuples(st.sampled_from(ENTRY[:9]),
+                                   st.booleans()).map(list), max_size=2))
+    return {'kind': 'sched', 'bp': bp, 'contents': contents, 'key': key,
+            'lookers': lookers, 'muts': muts, 'schedules': schedules,
+            'warm': warm,
+            'toggle': [draw(st.integers(0, 40)), draw(IDX)]}
+
+
 LEAK_MODES = ['hit', 'cold', 'badname', 'boom_lazy', 'boom_uncached',
               'boom_uncached_warm', 'boom_factory', 'boom_providedBy',
               'boom_generation', 'mutate_uncached', 'mutate_generation',
@@ -278,7 +326,8 @@ def leak_case(draw):
     bp, contents = draw(base_case())
     entry = draw(st.sampled_from(ENTRY))
     key = draw(key_strategy(1 if entry in ('lookup1', 'queryAdapter',
-                                            'adapter_hook', 'call') else 0))
+                                            'adapter_hook', 'call') else 0,
+                            bp))
     mode = draw(st.sampled_from(LEAK_MODES))
     if 'generation' in mode:
         while len(bp['regs']) < 3:
@@ -299,8 +348,14 @@ def stress_case(draw):
     bp, contents = draw(base_case(max_regs=2))
     # provided side: a chain, so that no two applicable registrations are
     # unrelated and every answer is a function of the state alone
-    bp['pbases'] = [[i - 1] if i else [] for i in range(len(bp['pbases']))]
-    keys = [draw(key_strategy()) for _ in range(draw(st.integers(2, 5)))]
+    # (otherwise the order among unrelated provided interfaces depends on
+    # the history; cycles that are not periodic are set aside at run time)
+    if draw(st.booleans()):
+        bp['pbases'] = [[i - 1] if i else []
+                        for i in range(len(bp['pbases']))]
+        bp.pop('pfan', None)
+    keys = [draw(key_strategy(0, bp))
+            for _ in range(draw(st.integers(2, 5)))]
     cycle = [draw(st.sampled_from(['treg', 'treg', 'tsub', 'unreg',
                                    'rbases', 'itoggle']))
              for _ in range(draw(st.integers(1, 4)))]
@@ -324,7 +379,8 @@ def stress_case(draw):
 
 def strategy(cfg):
     return {'inject': inject_case, 'preempt': preempt_case,
-            'leak': leak_case, 'stress': stress_case}[cfg['kind']]()
+            'leak': leak_case, 'stress': stress_case,
+            'sched': sched_case}[cfg['kind']]()
 
 
 # ---------------------------------------------------------------------------
@@ -684,6 +740,14 @@ class World:
             chain = set(M.ro(key[1]))
             cands = [m for m in self.regs_made if m[1] in chain] or \
                 self.regs_made
+            # first those whose provided interface has no other
+            # registration in that registry (removing them reshapes the
+            # table of extendors)
+            def lonely(m):
+                return sum(1 for x in self.regs_made
+                           if x[1] == m[1] and x[3] is m[3]) == 1
+            cands = [m for m in cands if lonely(m)] + \
+                [m for m in cands if not lonely(m)]
             m = cands[op[1] % len(cands)]
             return [('unregister', m[1], m[2], m[3], m[4])]
         if kind in ('tsub', 'sub'):
@@ -1364,18 +1428,29 @@ def run_preempt(case, cfg, out):
                              'expected %r' % (where, ybox.get('res'),
                                               before[i2]))
                     return
-            now = answers(regs)
-            if now != after:
-                bad = [i for i in range(len(keys)) if now[i] != after[i]][0]
-                out.fail('preempt-stale-' + keys[bad][0],
-                         '%s: afterwards %s answers %r, a registry that was '
-                         'never interrupted answers %r' % (
-                             where, keys[bad][0], now[bad], after[bad]))
-                return
-            if tg:
+            def plain_check():
+                now = answers(regs)
+                if now != after:
+                    bad = [i for i in range(len(keys))
+                           if now[i] != after[i]][0]
+                    out.fail('preempt-stale-' + keys[bad][0],
+                             '%s: afterwards %s answers %r, a registry that '
+                             'was never interrupted answers %r' % (
+                                 where, keys[bad][0], now[bad], after[bad]))
+                    return False
+                return True
+
+            def toggle_check():
+                if not tg:
+                    return True
                 W.do(tg[0])
                 try:
+                    # the interrupted key first: other lookups subscribe
+                    # to the same specifications and would hide a
+                    # subscription that was lost
+                    first = W.answer(regs, keys[kidx])
                     now = answers(regs)
+                    now[kidx] = first
                 finally:
                     W.do(tg_old)
                 if now != after_toggle:
@@ -1387,7 +1462,333 @@ def run_preempt(case, cfg, out):
                              'never interrupted answers %r' % (
                                  where, keys[bad][0], now[bad],
                                  after_toggle[bad]))
+                    return False
+                return True
+
+            order = [plain_check, toggle_check]
+            if k % 2:
+                order.reverse()
+            if not (order[0]() and order[1]()):
+                return
+        finally:
+            unmutate()
+    W.regs_made[:] = regs_made0
+    W.subs_made[:] = subs_made0
+
+
+# ---------------------------------------------------------------------------
+# sched: the harness owns the schedule of two or three threads
+
+
+class SchedulerStuck(Exception):
+    pass
+
+
+class Scheduler:
+    """Lets exactly one of the threads run; a thread gives way at the opcode
+    boundaries of zope.interface frames according to a list of segments
+    [(thread, number of opcode events)].  When the list is used up the
+    unfinished threads run to completion one after the other."""
+
+    def __init__(self, nthreads, segments):
+        self.cond = threading.Condition()
+        self.segments = [tuple(x) for x in segments]
+        self.done = [False] * nthreads
+        self.current = None
+        self.left = 0
+        self.switches = 0
+        self.sites = []
+        self._advance()
+
+    def _advance(self):
+        while self.segments:
+            tid, n = self.segments.pop(0)
+            if tid < len(self.done) and not self.done[tid]:
+                if tid != self.current:
+                    self.switches += 1
+                self.current, self.left = tid, n
+                return
+        for tid, d in enumerate(self.done):
+            if not d:
+                if tid != self.current:
+                    self.switches += 1
+                self.current, self.left = tid, 1 << 60
+                return
+        self.current = None
+
+    def _wait(self, tid):
+        t0 = time.time()
+        while self.current != tid:
+            self.cond.wait(1.0)
+            if time.time() - t0 > 60:
+                raise SchedulerStuck('thread %d never got its turn' % tid)
+
+    def gate(self, tid):
+        with self.cond:
+            self._wait(tid)
+
+    def tick(self, tid, frame):
+        with self.cond:
+            self.left -= 1
+            if self.left <= 0:
+                if len(self.sites) < 40:
+                    self.sites.append('%d@%s:%s' % (
+                        tid, os.path.basename(frame.f_code.co_filename),
+                        frame.f_lineno))
+                self._advance()
+                self.cond.notify_all()
+                self._wait(tid)
+
+    def finish(self, tid):
+        with self.cond:
+            self.done[tid] = True
+            if self.current == tid:
+                self._advance()
+            self.cond.notify_all()
+
+
+def run_scheduled(bodies, segments):
+    """bodies: callables, one per thread.  Returns (exceptions, scheduler)"""
+    if not _PRIMED[0]:
+        _prime()
+    sch = Scheduler(len(bodies), segments)
+    excs = [None] * len(bodies)
+
+    def runner(tid):
+        def local(frame, event, arg):
+            if event == 'opcode':
+                sch.tick(tid, frame)
+            return local
+
+        def glob(frame, event, arg):
+            if _traced_file(frame.f_code.co_filename):
+                frame.f_trace_opcodes = True
+                return local
+            return None
+        try:
+            sch.gate(tid)
+            sys.settrace(glob)
+            try:
+                bodies[tid]()
+            finally:
+                sys.settrace(None)
+        except BaseException as e:  # noqa
+            excs[tid] = e
+        finally:
+            sch.finish(tid)
+
+    ths = [threading.Thread(target=runner, args=(i,))
+           for i in range(len(bodies))]
+    for t in ths:
+        t.start()
+    for t in ths:
+        t.join()
+    return excs, sch
+
+
+def run_sched(case, cfg, out):
+    import traceback
+    W = World(case, out)
+    key = W.norm_key('lookup', case['key'])
+    W.setup_contents(key)
+    log0 = list(W.log)
+    regs_made0 = list(W.regs_made)
+    subs_made0 = list(W.subs_made)
+
+    # the mutator's sequence, made concrete once against the model state
+    # as it evolves; spec-level steps are undone afterwards
+    ms = []
+    undo = []
+    for op in case['muts']:
+        for m in W.concretize(op, key):
+            if m[0] == 'ibases':
+                undo.append(('ibases', m[1], list(W.ibases[m[1]])))
+                W.do(m)
+            elif m[0] == 'bases':
+                undo.append(('mbases', m[1], list(W.U.model.bases[m[1]])))
+                W.U.model.set_bases(m[1], list(m[2]))
+            elif m[0] == 'register':
+                W.regs_made.append(m)
+            elif m[0] == 'subscribe':
+                W.subs_made.append(m)
+            ms.append(m)
+
+    def unmutate():
+        for u in reversed(undo):
+            if u[0] == 'ibases':
+                if W.ibases[u[1]] != u[2]:
+                    W.do(u)
+            else:
+                W.U.model.set_bases(u[1], list(u[2]))
+    unmutate()
+    W.regs_made[:] = regs_made0
+    W.subs_made[:] = subs_made0
+    if not ms:
+        out.tag('mutator_not_applicable')
+        return
+
+    def apply(regs, m):
+        if m[0] == 'ibases':
+            W.do(m)
+        else:
+            apply_concrete(regs, m)
+
+    # the keys the lookup threads use, plus every entry point of the main
+    # key for the final comparison
+    lookers = []
+    for ops in case['lookers']:
+        seq = []
+        for entry, other, k2 in ops:
+            k = W.norm_key(entry, k2 if other else case['key'])
+            if k[0] in ('lookup1', 'queryAdapter', 'adapter_hook') and \
+                    len(k[2]) != 1:
+                k = W.norm_key('lookup', k2 if other else case['key'])
+            seq.append(k)
+        lookers.append(seq)
+    keys = W.all_entries(key)
+    for seq in lookers:
+        for k in seq:
+            if k not in keys:
+                keys.append(k)
+
+    def answers(regs):
+        return [W.answer(regs, k) for k in keys]
+
+    # reference: answers after j mutations, on registries that no other
+    # thread ever touched
+    t = W.build(log0)
+    A = [answers(t)]
+    for m in ms:
+        apply(t, m)
+        A.append(answers(t))
+    tg = W.concretize(['itoggle'] + list(case['toggle']), key)
+    if tg and any(m[0] == 'ibases' and m[1] == tg[0][1] for m in ms):
+        tg = []
+    after_toggle = None
+    if tg:
+        tg_old = ('ibases', tg[0][1], list(W.ibases[tg[0][1]]))
+        W.do(tg[0])
+        after_toggle = answers(t)
+        W.do(tg_old)
+    unmutate()
+    if any(a != A[0] for a in A):
+        out.nontrivial = True
+        out.tag('answers_change')
+
+    for sn, segments in enumerate(case['schedules']):
+        regs = W.build(log0)
+        for wentry, same in case['warm']:
+            wk = W.norm_key(wentry, case['key'])
+            if wk[0] in ('lookup1', 'queryAdapter', 'adapter_hook') and \
+                    len(wk[2]) != 1:
+                continue
+            W.answer(regs, wk)
+        started = [0]
+        finished = [0]
+        records = []
+
+        def mk_looker(seq):
+            def body():
+                for k in seq:
+                    f0 = finished[0]
+                    a = W.answer(regs, k)
+                    records.append((k, a, f0, started[0]))
+            return body
+
+        def mutator():
+            for m in ms:
+                started[0] += 1
+                apply(regs, m)
+                finished[0] += 1
+
+        bodies = [mutator] + [mk_looker(seq) for seq in lookers]
+        excs, sch = run_scheduled(bodies, segments)
+        out.checks += 1
+        out.tag('switches_%s' % ('0' if sch.switches <= 1 else
+                                 'le3' if sch.switches <= 3 else
+                                 'le6' if sch.switches <= 6 else 'gt6'))
+        where = 'schedule %d %r (switch sites %s) on registry %d (%s)' % (
+            sn, segments, ' '.join(sch.sites[:12]), key[1],
+            W.U.flavours[key[1]])
+        try:
+            for tid, e in enumerate(excs):
+                if e is None:
+                    continue
+                if isinstance(e, SchedulerStuck):
+                    raise e
+                out.fail('sched-exception-%s:%s' % (
+                    'mutator' if tid == 0 else 'lookup',
+                    type(e).__name__),
+                    '%s: thread %d raised %r\n%s' % (
+                        where, tid, e, ''.join(traceback.format_exception(
+                            type(e), e, e.__traceback__))[-1200:]))
+                return
+            for k, a, f0, s1 in records:
+                i = keys.index(k)
+                out.checks += 1
+                if s1 - f0 == 0:
+                    ok = [A[f0][i]]
+                else:
+                    # every state the call can have overlapped
+                    ok = [A[j][i] for j in range(f0, s1 + 1)]
+                    if s1 - f0 > 1:
+                        # more than one mutation during one lookup: the
+                        # statement speaks about one; only membership in
+                        # the states seen is demanded
+                        out.tag('lookup_spans_several')
+                if a not in ok:
+                    out.fail('sched-wrong-' + k[0],
+                             '%s: %s for %r answered %r; %d mutation(s) '
+                             'overlapped the call, correct answers: %r' % (
+                                 where, k[0], k[2:], a, s1 - f0, ok))
                     return
+            def plain_check():
+                now = answers(regs)
+                if now != A[-1]:
+                    bad = [i for i in range(len(keys))
+                           if now[i] != A[-1][i]][0]
+                    out.fail('sched-stale-' + keys[bad][0],
+                             '%s: afterwards %s for %r answers %r, a '
+                             'registry no other thread touched answers %r\n'
+                             '%s' % (where, keys[bad][0], keys[bad][2:],
+                                     now[bad], A[-1][bad],
+                                     _diag(regs, key[1], 0, started[0],
+                                           finished[0])))
+                    return False
+                return True
+
+            def toggle_check():
+                if not tg:
+                    return True
+                W.do(tg[0])
+                try:
+                    # the keys the threads used first (see preempt)
+                    first = {}
+                    for kk, _a, _f, _s in records:
+                        i = keys.index(kk)
+                        if i not in first:
+                            first[i] = W.answer(regs, kk)
+                    now = answers(regs)
+                    for i, a in first.items():
+                        now[i] = a
+                finally:
+                    W.do(tg_old)
+                if now != after_toggle:
+                    bad = [i for i in range(len(keys))
+                           if now[i] != after_toggle[i]][0]
+                    out.fail('sched-stale-after-rebase-' + keys[bad][0],
+                             '%s: after a later re-base of a required '
+                             'interface %s answers %r, expected %r' % (
+                                 where, keys[bad][0], now[bad],
+                                 after_toggle[bad]))
+                    return False
+                return True
+
+            order = [plain_check, toggle_check]
+            if sn % 2:
+                order.reverse()
+            if not (order[0]() and order[1]()):
+                return
         finally:
             unmutate()
     W.regs_made[:] = regs_made0
@@ -1766,6 +2167,8 @@ def run_case(case, cfg, out):
             run_leak(case, cfg, out)
         elif kind == 'stress':
             run_stress(case, cfg, out)
+        elif kind == 'sched':
+            run_sched(case, cfg, out)
         else:
             raise ValueError(kind)
     finally:
